@@ -30,6 +30,7 @@ import PyomaVerif.Ops.MsGather
 import PyomaVerif.Ops.C02State
 import PyomaVerif.Ops.BuildHank
 import PyomaVerif.Ops.C07Rect
+import PyomaVerif.Ops.MultiSetup
 /-! Line-protocol driver: one JSON object per line in, one JSON value per line out. -/
 open Lean PV PV.Codec
 
@@ -47,6 +48,7 @@ def allOps : List (String × (Json → Except String Json)) :=
   ++ PV.Ops.C14Own.ops
   ++ PV.Ops.C07Rect.ops
   ++ PV.Ops.C13M.ops
+  ++ PV.Ops.MultiSetup.ops
 
 def handle (line : String) : String :=
   match Json.parse line with
